@@ -504,8 +504,8 @@ def compare_variant(sc, log, toks, outidx, mout, exact_load_return=True):
         elif kind == "S":
             if r[1] != tc:
                 return "Set action %d called at %d returned at %d" % (a, tc, r[1])
-        elif kind in ("C", "D"):
-            continue   # a garbage collection: not an event of the cache
+        elif kind in ("C", "D", "X"):
+            continue   # a garbage collection / a call the cache rejects with a panic on the caller: not an event of the cache
         else:
             if kind in ("G", "g"):
                 o = outs[outidx[a]]
